@@ -63,6 +63,71 @@ func (g *sessGen) prelude() []*sessStep {
 	return steps
 }
 
+// lateProjection: a find-and-modify whose projection fails ONLY on the document it returns: the
+// projected field is an $elemMatch with an unknown operator, which is evaluated only when the field
+// is a non-empty array. The write itself (a $push / $set / replacement / upsert) creates that array
+// (returned with ReturnDocument After), or the stored document already has it (Before, delete).
+// The statement fails after its write was applied and must leave the transaction as it was.
+func (g *sessGen) lateProjection(c *sessCall, docs bsonkit.List) {
+	r := g.r
+	f := g.key() + "z"
+	c.Proj, c.HasProj = lateFailingProjection(f), true
+	arr := bson.A{r.SmallNumber()}
+	// a stored document that already holds the array (after an earlier statement of this kind succeeded
+	// without projection, or was committed)
+	var holder bsonkit.Doc
+	for _, d := range docs {
+		for _, e := range *d {
+			if a, ok := e.Value.(bson.A); ok && len(a) > 0 && e.Key != "_id" {
+				holder, f = d, e.Key
+				c.Proj = lateFailingProjection(f)
+			}
+		}
+	}
+	idOf := func(d bsonkit.Doc) bson.D {
+		if v, err := bsonkit.Transform(bson.D{{Key: "_id", Value: bsonkit.Get(d, "_id")}}); err == nil {
+			return *v
+		}
+		return bson.D{}
+	}
+	c.Q = g.filter(docs)
+	if len(docs) > 0 && r.P(60) {
+		c.Q = idOf(docs[r.N(len(docs))])
+	}
+	n := r.N(100)
+	if holder != nil && r.P(45) {
+		n = 60 + r.N(15)
+	}
+	switch {
+	case n < 35:
+		c.M, c.After, c.Upsert = "findOneAndUpdate", r.P(75), r.P(45)
+		if r.P(50) {
+			c.U = bson.D{{Key: "$push", Value: bson.D{{Key: f, Value: r.SmallNumber()}}}}
+		} else {
+			c.U = bson.D{{Key: "$set", Value: bson.D{{Key: f, Value: arr}}}}
+		}
+	case n < 60:
+		c.M, c.After, c.Upsert = "findOneAndReplace", r.P(75), r.P(45)
+		c.Repl = bson.D{{Key: g.key(), Value: r.SmallNumber()}, {Key: f, Value: arr}}
+	case n < 75 && holder != nil:
+		// the pre-image already fails: Before, or delete
+		c.Q = idOf(holder)
+		if r.P(50) {
+			c.M = "findOneAndDelete"
+		} else {
+			c.M, c.After = "findOneAndUpdate", false
+			c.U = bson.D{{Key: "$inc", Value: bson.D{{Key: g.key(), Value: int32(1)}}}}
+		}
+	default:
+		// the same write without the projection: succeeds and leaves the array behind
+		c.Proj, c.HasProj = nil, false
+		c.M, c.Upsert = "findOneAndUpdate", r.P(50)
+		c.U = bson.D{{Key: "$push", Value: bson.D{{Key: f, Value: r.SmallNumber()}}}}
+		c.After = r.P(50)
+	}
+	g.sortOpt(c, 20)
+}
+
 // colliding: a write on collection c around the unique key: multi-updates that produce a duplicate at
 // the second or a later document (or shift all keys without one), replacements / single updates onto
 // a taken key, batches with a duplicate behind a valid item, inserts of taken and free keys.
@@ -293,6 +358,10 @@ func (g *sessGen) call(write, allowDirect bool, cat *lungo.Catalog) *sessCall {
 	}
 	if g.uk != "" && r.P(45) {
 		g.colliding(c, g.docsOf(cat, "c"))
+		return c
+	}
+	if r.P(9) {
+		g.lateProjection(c, docs)
 		return c
 	}
 	n := r.N(100)
@@ -609,6 +678,9 @@ func sessStepOfReq(r reqObj) (st *sessStep, err error) {
 	}
 	c.Skip, c.Limit = sessInt(r["skip"]), sessInt(r["limit"])
 	c.Upsert, c.After = r.boolean("upsert"), r.boolean("after")
+	if has("proj") {
+		c.Proj, c.HasProj = r.doc("proj"), true
+	}
 	if has("keys") {
 		c.Keys = r.doc("keys")
 	}
@@ -744,6 +816,7 @@ func init() {
 			"plain writes that wait 150 ms for a held writer slot, calls on ended sessions, commit twice, start on an ended or busy session, " +
 			"index operations directly on the open transaction followed by abort; 40% of the histories start with a unique secondary index over a few documents and then mix in " +
 			"multi-updates / replacements / batches (insertMany, bulkWrite) that fail for uniqueness at a later document, inside and outside transactions, followed by commits; " +
+			"9% of the writes are find-and-modify statements whose projection fails only on the returned document (the write itself creates the offending array); " +
 			"monitors on the implementation alone: a failed statement leaves the transaction's view unchanged (C02), every index of the view / the committed catalog is coherent (C15), unique keys (C07); " +
 			"6-15% injected store failures on commits); every step is one case compared with Lean `SSys.step`, followed by dump cases " +
 			"(transaction view = sess.dumpTxn, committed = sess.dump); snapshots (Catalog(), open cursors, unlocked transactions, the " +
